@@ -1,5 +1,5 @@
 import VtProofs.JsonGrammar
-import VtProofs.TileJsonFull
+import VtProofs.TileJsonMerge
 /-!
 # C17 — JSON round trips and containers hand back the TileJSON they were given
 
@@ -275,6 +275,55 @@ theorem demoDoc_wf : DocWF demoDoc where
 
 example : fromObject natNum (asObject natNum demoDoc) = some demoDoc :=
   fromObject_asObject natNum natLaws demoDoc demoDoc_wf
+
+/-! ### `merge` (what the tar and directory readers apply to the stored document) -/
+
+/-- **C17g**: `TileJSON::default().merge(t) = t` for every well-formed document — the tar and
+    directory readers, which build their metadata this way, hand back exactly what was stored
+    (the directory reader then narrows it, see `update_*`).  Includes the repaired case of
+    /repo 09996a8a (a `minzoom`/`maxzoom` that is not a byte). -/
+theorem merge_default (t : TileJSON M) (h : DocWF t) : merge nu TileJSON.default t = t :=
+  merge_default_full nu t h
+
+/-- center: `other` overrides when present -/
+theorem merge_center (s o : TileJSON M) :
+    (merge nu s o).center = match o.center with | some c => some c | none => s.center := rfl
+
+/-- bounds: the union box (`GeoBBox::extended`), or whichever side has one -/
+theorem merge_bounds (s o : TileJSON M) :
+    (merge nu s o).bounds = match o.bounds, s.bounds with
+      | some ob, some sb => some (extendBox nu sb ob)
+      | some ob, none => some ob
+      | none, sb => sb := by
+  cases ho : o.bounds <;> cases hs : s.bounds <;> simp [merge, ho, hs]
+
+/-- every key other than `minzoom`/`maxzoom`: `other` overrides, otherwise `self` is kept -/
+theorem merge_other_keys (s o : TileJSON M) (ho : SortedKeys o.values) (k : Key)
+    (h1 : k ≠ kMinzoom) (h2 : k ≠ kMaxzoom) :
+    lookupKV k (merge nu s o).values =
+      match lookupKV k o.values with
+      | some v => some v
+      | none => lookupKV k s.values := merge_values_other nu s o ho k h1 h2
+
+/-- zoom range of a merge is the union: `minzoom = min`, `maxzoom = max` -/
+theorem merge_zoom (s o : TileJSON M) (ho : SortedKeys o.values) :
+    (∀ b, lookupKV kMinzoom o.values = some (.byte b) →
+      lookupKV kMinzoom (merge nu s o).values =
+        some (.byte (match getByte? s.values kMinzoom with | some m => Nat.min m b | none => b))) ∧
+    (∀ b, lookupKV kMaxzoom o.values = some (.byte b) →
+      lookupKV kMaxzoom (merge nu s o).values =
+        some (.byte (match getByte? s.values kMaxzoom with | some m => Nat.max m b | none => b))) :=
+  ⟨fun b hb => merge_minzoom nu s o ho b hb, fun b hb => merge_maxzoom nu s o ho b hb⟩
+
+/-- the repaired behaviour (09996a8a): a value of `other` that is not a byte overrides, also under
+    the keys `minzoom` / `maxzoom` (before the fix these two were dropped) -/
+theorem merge_nonbyte_overrides (s o : TileJSON M) (ho : SortedKeys o.values) (k : Key) (v : TJValue)
+    (hv : lookupKV k o.values = some v) (hnb : ∀ b, v ≠ .byte b) :
+    lookupKV k (merge nu s o).values = some v := merge_zoom_nonbyte nu s o ho k v hv hnb
+
+/-- `merge` keeps the value map a sorted map -/
+theorem merge_sorted (s o : TileJSON M) (hs : SortedKeys s.values) : SortedKeys (merge nu s o).values :=
+  merge_values_sorted nu s o hs
 
 /-! ### served `tiles.json` = stored metadata + `tiles` template + narrowed bounds/zoom -/
 
